@@ -20,7 +20,7 @@ pub const SIGMA: &[&str] = &[
     // trivia
     " ", "\n", "\r\n", "//c\n", "//c", "/*c*/",
     // lexical error shapes
-    "\"u", "[{u", "/*u", "..", "!zz", "0x", "@", "é", "\u{a0}", "\u{feff}", "$", "*",
+    "\"u", "[{u", "/*u", "..", "!zz", "0x", "@", "é", "\u{a0}", "\u{feff}", "$", "*", "\0",
     // preprocessor shapes
     "#ifdef A", "#ifndef A", "#else", "#endif", "#define A", "#ifdef",
 ];
